@@ -42,6 +42,7 @@ type Options struct {
 	ReadBuf     int
 	ACL         ACLFunc
 	NoAuthHook  bool                       // install no authentication hook at all
+	NoACLHook   bool                       // the recorder does not answer ACL checks (other hooks decide)
 	AuthDeny    func(clientID string) bool // recorder auth decision (nil = allow all)
 	ExtraHooks  []HookSpec                 // added after the recorder (or before, see First)
 	FirstHooks  []HookSpec                 // added before the recorder
@@ -340,7 +341,9 @@ func (r *recorder) Provides(b byte) bool {
 	switch b {
 	case mqtt.OnConnectAuthenticate:
 		return !r.b.Opts.NoAuthHook
-	case mqtt.OnACLCheck, mqtt.OnPublishDropped, mqtt.OnPacketSent, mqtt.OnQosPublish, mqtt.OnQosComplete, mqtt.OnQosDropped,
+	case mqtt.OnACLCheck:
+		return !r.b.Opts.NoACLHook
+	case mqtt.OnPublishDropped, mqtt.OnPacketSent, mqtt.OnQosPublish, mqtt.OnQosComplete, mqtt.OnQosDropped,
 		mqtt.OnPacketIDExhausted, mqtt.OnWillSent, mqtt.OnRetainMessage, mqtt.OnClientExpired, mqtt.OnRetainedExpired,
 		mqtt.OnDisconnect, mqtt.OnSessionEstablished, mqtt.OnSubscribed, mqtt.OnUnsubscribed, mqtt.OnPublished, mqtt.OnRetainPublished:
 		return true
